@@ -298,12 +298,46 @@ func c01OddAddresses(r *ev.Run, ret *retained) int64 {
 	return n
 }
 
+// c01Direct: messages outside the model corpus - multipart requests of every type 0..19 without a
+// body (a caller fills Body or leaves it nil), the values of direct.go that are top-level messages
+// (flow-mod with a clear-actions instruction that holds actions, features reply with ports), an
+// experimenter message without payload.
+func c01Direct(r *ev.Run, ret *retained) int64 {
+	var n int64
+	one := func(label, kind string, m util.Message) {
+		n++
+		rep := map[string]any{"direct_message": label}
+		c01Message(r, m, kind, func(clause, what string) {
+			r.Violation(clause+":direct:"+kind, what+" for "+label, rep)
+		}, ret, label)
+	}
+	for t := 0; t < 20; t++ {
+		req := &of.MultipartRequest{Header: of.NewOfp13Header(), Type: uint16(t)}
+		req.Header.Type = of.Type_MultiPartRequest
+		one(fmt.Sprintf("multipart request of type %d with no body", t), "multipart_request", req)
+	}
+	for _, d := range directValues() {
+		var v any
+		if pn := safePkt(func() { v = d.mk() }); pn != nil {
+			continue
+		}
+		switch m := v.(type) {
+		case *of.FlowMod:
+			one(d.name, "flow_mod", m)
+		case *of.SwitchFeatures:
+			one(d.name, "features_reply", m)
+		}
+	}
+	return n
+}
+
 func c01(r *ev.Run, replay string) {
 	ret := &retained{}
 	if replay != "" {
 		var c shapeCase
 		if err := ev.LoadReplay(replay, &c); err != nil || c.Tree == nil {
 			c01Hello(r, ret)
+			c01Direct(r, ret)
 			c01OddAddresses(r, ret)
 			r.Set("states", 1)
 			return
@@ -315,6 +349,10 @@ func c01(r *ev.Run, replay string) {
 	shapes := forEachControllerShape(r, func(n *wire.N, h bind.Hist) { c01Check(r, n, h, ret) })
 	shapes += c01Hello(r, ret)
 	r.Completed("hello with 0..3 elements x 1..2 bitmaps set through the exported fields")
+	dn := c01Direct(r, ret)
+	shapes += dn
+	r.Add("histories", dn)
+	r.Completed("multipart requests of every type 0..19 without a body; flow-mod with a clear-actions instruction holding 0..2 actions; features reply with 0..2 port descriptions")
 	odd := c01OddAddresses(r, ret)
 	shapes += odd
 	r.Add("histories", odd)
